@@ -412,6 +412,15 @@ func (e *env) request(world *World, docBytes []byte, q ReqSpec, again bool) (han
 	if faultSeen {
 		res.Fault("reqbody_" + q.Chunk.FaultKind)
 	}
+	// a request whose body decoded and satisfied its schema may not be rejected because the
+	// body with its defaults could not be written back
+	for i := range s.Vals {
+		if rewriteFailed(verdicts[i]) {
+			res.Probe("defaults-rewrite-failed")
+			violate("C13", "R2-body-defaults", "defaults-rewrite-failed:"+s.Doc.BodyKind, fmt.Sprintf("validation #%d rejected the request only because the body with its defaults could not be re-encoded: %v", i+1, verdicts[i]))
+			break
+		}
+	}
 	if st != nil {
 		if st.Reads > 4*len(orig)+64 {
 			violate("C13", "bounded-reads", "unbounded-reads", fmt.Sprintf("%d reads issued for a %d-byte body", st.Reads, len(orig)))
@@ -589,6 +598,20 @@ func (e *env) request(world *World, docBytes []byte, q ReqSpec, again bool) (han
 	return handler
 }
 
+func rewriteFailed(err error) bool {
+	switch x := err.(type) {
+	case openapi3.MultiError:
+		for _, m := range x {
+			if rewriteFailed(m) {
+				return true
+			}
+		}
+	case *openapi3filter.RequestError:
+		return x.RequestBody != nil && x.Reason == "rewriting failed"
+	}
+	return false
+}
+
 func readOrder(n int, reverse bool) []int {
 	out := make([]int, n)
 	for i := range out {
@@ -639,7 +662,7 @@ func (e *env) checkParamDefaults(before, after snapshot, v ValOpts, violate func
 	for k, vs := range bc {
 		expectC[k] = vs
 	}
-	for _, p := range e.s.Doc.Params {
+	for _, p := range e.s.Doc.EffectiveParams() {
 		if p.Default == nil {
 			continue
 		}
@@ -688,9 +711,11 @@ func (e *env) checkParamDefaults(before, after snapshot, v ValOpts, violate func
 		}
 		return out
 	}
-	if !reflect.DeepEqual(sortVals(aq), sortVals(expectQ)) {
+	// (with the query-exclusion option nothing is asserted about query parameters: the option removes
+	// them from validation, and whether their defaults are still populated is not part of C13)
+	if !v.ExcludeQuery && !reflect.DeepEqual(sortVals(aq), sortVals(expectQ)) {
 		what := "query"
-		for _, p := range e.s.Doc.Params {
+		for _, p := range e.s.Doc.EffectiveParams() {
 			if p.In == "query" && p.Type == "array" {
 				if _, present := bq[p.Name]; !present && !reflect.DeepEqual(aq[p.Name], expectQ[p.Name]) {
 					what = "query-array-explode=" + p.Explode
@@ -741,7 +766,7 @@ func (e *env) checkIdempotent(docBytes []byte, q ReqSpec, after snapshot, final 
 		for _, p := range parts(verr) {
 			what = p
 		}
-		for _, p := range e.s.Doc.Params {
+		for _, p := range e.s.Doc.EffectiveParams() {
 			if p.Type == "array" && strings.HasSuffix(what, ":"+p.Name) {
 				what += "/explode=" + p.Explode
 			}
